@@ -28,7 +28,8 @@ SeqF(ss) == [f |-> "seq", ss |-> ss, i |-> 1, ph |-> "run"]
 PopsF(n) == [f |-> "pops", n |-> n]
 
 StOf(x, t) == [sc |-> t.sc, heap |-> x.heap, pt |-> x.pt, log |-> x.log, xt |-> FALSE, pend |-> "",
-               v2 |-> x.v2, wrap |-> 0]
+               v2 |-> x.v2, wrap |-> 0, pre |-> <<>>,
+               c |-> [prog |-> x.prog, name |-> t.name, mo |-> x.mo, v2 |-> x.v2]]
 \* write an evaluation's state back into the machine
 Back(x, t, st) == [SetTop(x, [t EXCEPT !.sc = st.sc, !.exit = (@ \/ st.xt)])
                      EXCEPT !.heap = st.heap, !.pt = st.pt, !.log = st.log, !.evals = @ + 1]
@@ -38,23 +39,17 @@ RECURSIVE CurSid(_, _)
 CurSid(ctl, i) == IF i = 0 THEN 0
                   ELSE IF ctl[i].f = "seq" /\ ctl[i].i <= Len(ctl[i].ss) THEN ctl[i].ss[ctl[i].i].sid
                   ELSE CurSid(ctl, i - 1)
-RECURSIVE CurWrap(_, _)
-CurWrap(ctl, i) == IF i = 0 THEN 0
-                   ELSE IF ctl[i].f = "seq" /\ ctl[i].i <= Len(ctl[i].ss)
-                          THEN (IF ctl[i].ph = "lead" THEN LeadUse(ctl[i].ss[ctl[i].i]).wrap ELSE 0)
-                   ELSE CurWrap(ctl, i - 1)
 RECURSIVE Repeat(_, _)
 Repeat(x, n) == IF n = 0 THEN <<>> ELSE <<x>> \o Repeat(x, n - 1)
-\* error chain: failing position first, then every use() call site outward (and the site of a call the use() was an argument of)
+\* error chain: failing position first, then every use() call site outward
 RECURSIVE Callers(_, _)
 Callers(tasks, i) == IF i = 0 THEN <<>>
-                     ELSE Repeat(<<tasks[i].name, CurSid(tasks[i].ctl, Len(tasks[i].ctl))>>, 1 + CurWrap(tasks[i].ctl, Len(tasks[i].ctl)))
-                          \o Callers(tasks, i - 1)
-Fail(x, cls, sid, wrap) ==
+                     ELSE <<<<tasks[i].name, CurSid(tasks[i].ctl, Len(tasks[i].ctl))>>>> \o Callers(tasks, i - 1)
+Fail(x, cls, sid, wrap, pre) ==
   LET t == TopT(x) IN
   [x EXCEPT !.status = "error",
             !.err = [cls |-> cls,
-                     chain |-> Repeat(<<t.name, sid>>, 1 + wrap) \o Callers(x.tasks, Len(x.tasks) - 1)]]
+                     chain |-> pre \o Repeat(<<t.name, sid>>, 1 + wrap) \o Callers(x.tasks, Len(x.tasks) - 1)]]
 
 \* StmtRetrun(): polls the signal unless the task is already exiting
 Polled(x) == LET t == TopT(x) IN
@@ -80,7 +75,7 @@ Reverse(s) == [i \in 1..Len(s) |-> s[Len(s) + 1 - i]]
 RECURSIVE Select(_, _, _)
 Select(cs, j, st) ==
   IF j > Len(cs) THEN [st |-> st, ok |-> TRUE, j |-> 0, cls |-> ""]
-  ELSE LET r == NoPend(Use1(st, Eval(cs[j], st))) IN
+  ELSE LET r == Use1(st, Eval(cs[j], st)) IN
        IF ~r.ok THEN [st |-> r.st, ok |-> FALSE, j |-> 0, cls |-> r.cls]
        ELSE IF Truthy(r.st.heap, r.v) THEN [st |-> r.st, ok |-> TRUE, j |-> j, cls |-> ""]
        ELSE Select(cs, j + 1, r.st)
@@ -96,7 +91,7 @@ StepSeqRun(x, t, fr) ==
     [] s.k = "if" ->
          LET t1 == PushSc(t)
              r == Select(s.cs, 1, StOf(x, t1))
-         IN IF ~r.ok THEN Fail(Back(x, t1, r.st), r.cls, s.sid, r.st.wrap)
+         IN IF ~r.ok THEN Fail(Back(x, t1, r.st), r.cls, s.sid, r.st.wrap, r.st.pre)
             ELSE LET y == Back(x, t1, r.st)
                      t2 == SetPh(TopT(y), "poll")
                  IN IF r.j # 0
@@ -106,17 +101,17 @@ StepSeqRun(x, t, fr) ==
                     ELSE SetTop(y, [t2 EXCEPT !.sc = PopN(@, 1)])
     [] s.k = "for" ->
          LET t1 == PushSc(t)
-             r == IF NoneNode(s.i) THEN R(StOf(x, t1), VVoid) ELSE NoPend(Eval(s.i, StOf(x, t1)))
-         IN IF ~r.ok THEN Fail(Back(x, t1, r.st), r.cls, s.sid, r.st.wrap)
+             r == IF NoneNode(s.i) THEN R(StOf(x, t1), VVoid) ELSE Eval(s.i, StOf(x, t1))
+         IN IF ~r.ok THEN Fail(Back(x, t1, r.st), r.cls, s.sid, r.st.wrap, r.st.pre)
             ELSE LET y == Back(x, t1, r.st)
                  IN SetTop(y, [SetPh(TopT(y), "poll") EXCEPT !.ctl = Append(@, [f |-> "for", node |-> s, ph |-> "cond"])])
     [] s.k = "forin" ->
          LET t1 == PushSc(t)
-             r == NoPend(Use1(StOf(x, t1), Eval(s.it, StOf(x, t1))))
-         IN IF ~r.ok THEN Fail(Back(x, t1, r.st), r.cls, s.sid, r.st.wrap)
+             r == Use1(StOf(x, t1), Eval(s.it, StOf(x, t1)))
+         IN IF ~r.ok THEN Fail(Back(x, t1, r.st), r.cls, s.sid, r.st.wrap, r.st.pre)
             ELSE LET y == Back(x, t1, r.st)
                      kd == KindOf(y.heap, r.v)
-                 IN IF ~(kd \in {"str", "list", "map"}) THEN Fail(y, "not-iterable", s.sid, 0)
+                 IN IF ~(kd \in {"str", "list", "map"}) THEN Fail(y, "not-iterable", s.sid, 0, <<>>)
                     ELSE LET items == CASE kd = "str" -> [i \in 1..Len(Runes(r.v.s)) |-> VStr(Runes(r.v.s)[i])]
                                         [] kd = "list" -> y.heap[r.v.l].e
                                         [] kd = "map" -> LET ks == SortAsc(y.heap[r.v.l].ks)
@@ -125,14 +120,9 @@ StepSeqRun(x, t, fr) ==
                          IN SetTop(y, [PushSc(SetPh(TopT(y), "poll")) EXCEPT
                                          !.ctl = Append(@, [f |-> "forin", node |-> s, items |-> items, i |-> 1,
                                                             ph |-> "next", strmode |-> kd = "str"])])
-    [] LeadUse(s).is /\ ~x.v2 /\ LeadUse(s).name \in DOMAIN x.prog ->
-         \* a use call the statement evaluates first: the callee's task is pushed before the statement itself is evaluated
-         [SetTop(x, SetPh(t, "lead")) EXCEPT !.tasks = Append(@, [name |-> LeadUse(s).name, ctl |-> <<SeqF(x.prog[LeadUse(s).name])>>,
-                                                                  sc |-> <<EmptyScope>>, brk |-> FALSE, cont |-> FALSE,
-                                                                  exit |-> FALSE])]
     [] OTHER ->      \* expression / assignment / call statement
-         LET r == IF DirectUse(s) THEN Eval(s, StOf(x, t)) ELSE NoPend(Eval(s, StOf(x, t))) IN
-         IF ~r.ok THEN Fail(Back(x, t, r.st), r.cls, s.sid, r.st.wrap)
+         LET r == EvalTop(s, StOf(x, t)) IN
+         IF ~r.ok THEN Fail(Back(x, t, r.st), r.cls, s.sid, r.st.wrap, r.st.pre)
          ELSE LET y == Back(x, t, r.st)
                   t2 == SetPh(TopT(y), "poll")
               IN IF r.st.pend # "" /\ r.st.pend \in DOMAIN x.prog
@@ -140,13 +130,6 @@ StepSeqRun(x, t, fr) ==
                                                                     sc |-> <<EmptyScope>>, brk |-> FALSE, cont |-> FALSE,
                                                                     exit |-> FALSE])]
                    ELSE SetTop(y, t2)
-
-\* the callee of a leading use() has returned: now the statement itself, the call yielding "no value"
-StepSeqLead(x, t, fr) ==
-  LET s == fr.ss[fr.i]
-      r == Eval(s, StOf(x, t))
-  IN IF ~r.ok THEN Fail(Back(x, t, r.st), r.cls, s.sid, r.st.wrap)
-     ELSE LET y == Back(x, t, r.st) IN SetTop(y, SetPh(TopT(y), "poll"))
 
 StepSeqPoll(x, t, fr) ==
   LET y == Polled(x)
@@ -159,8 +142,8 @@ EndLoop(x, t, nsc) == SetTop(x, [t EXCEPT !.ctl = PopN(@, 1), !.sc = PopN(@, nsc
 StepFor(x, t, fr) ==
   LET s == fr.node IN
   CASE fr.ph = "cond" ->
-         LET r == IF NoneNode(s.c) THEN R(StOf(x, t), VBool(TRUE)) ELSE NoPend(Use1(StOf(x, t), Eval(s.c, StOf(x, t)))) IN
-         IF ~r.ok THEN Fail(Back(x, t, r.st), r.cls, s.sid, r.st.wrap)
+         LET r == IF NoneNode(s.c) THEN R(StOf(x, t), VBool(TRUE)) ELSE Use1(StOf(x, t), Eval(s.c, StOf(x, t))) IN
+         IF ~r.ok THEN Fail(Back(x, t, r.st), r.cls, s.sid, r.st.wrap, r.st.pre)
          ELSE LET y == Back(x, t, r.st)
                   u == TopT(y)
               IN IF ~Truthy(y.heap, r.v) THEN EndLoop(y, u, 1)
@@ -171,8 +154,8 @@ StepFor(x, t, fr) ==
                   u == TopT(y)
               IN IF u.exit THEN EndLoop(y, u, 1) ELSE SetTop(y, SetPh(u, "post"))
     [] fr.ph = "post" ->
-         LET r == IF NoneNode(s.p) THEN R(StOf(x, t), VVoid) ELSE NoPend(Eval(s.p, StOf(x, t))) IN
-         IF ~r.ok THEN Fail(Back(x, t, r.st), r.cls, s.sid, r.st.wrap)
+         LET r == IF NoneNode(s.p) THEN R(StOf(x, t), VVoid) ELSE Eval(s.p, StOf(x, t)) IN
+         IF ~r.ok THEN Fail(Back(x, t, r.st), r.cls, s.sid, r.st.wrap, r.st.pre)
          ELSE LET y == Back(x, t, r.st) IN SetTop(y, SetPh(TopT(y), "cond"))
 
 ClearTopSc(t) == [t EXCEPT !.sc[Len(t.sc)] = EmptyScope]
@@ -199,8 +182,7 @@ Step(x) ==
     THEN (IF Len(x.tasks) = 1 THEN [x EXCEPT !.status = "done"]
           ELSE [x EXCEPT !.tasks = PopN(@, 1)])              \* use() returns: the caller resumes
   ELSE LET fr == TopF(t) IN
-       CASE fr.f = "seq" -> (IF fr.ph = "run" THEN StepSeqRun(x, t, fr) ELSE IF fr.ph = "lead" THEN StepSeqLead(x, t, fr)
-                             ELSE StepSeqPoll(x, t, fr))
+       CASE fr.f = "seq" -> (IF fr.ph = "run" THEN StepSeqRun(x, t, fr) ELSE StepSeqPoll(x, t, fr))
          [] fr.f = "pops" -> SetTop(x, [t EXCEPT !.ctl = PopN(@, 1), !.sc = PopN(@, fr.n)])
          [] fr.f = "for" -> StepFor(x, t, fr)
          [] fr.f = "forin" -> StepForIn(x, t, fr)
